@@ -404,7 +404,14 @@ func r203(c *Ctx) {
 	for _, cs := range callsToName(wrc, "net/rpc.Dial") {
 		dial = cs.instr.(*ssa.Call)
 	}
-	okW := dial != nil
+	// which parameter is the callback (the socket path may or may not be passed in)
+	fnIdx := -1
+	for i, p := range wrc.Params {
+		if _, isSig := p.Type().Underlying().(*types.Signature); isSig {
+			fnIdx = i
+		}
+	}
+	okW := dial != nil && fnIdx >= 0
 	if okW {
 		for _, ret := range normalReturns(wrc) {
 			v := lastRet(ret)
@@ -414,7 +421,7 @@ func r203(c *Ctx) {
 				continue
 			}
 			call, isC := v.(*ssa.Call)
-			okW = okW && isC && call.Call.Value == ssa.Value(wrc.Params[1]) && call.Call.Args[0] == resultOf(dial, 0)
+			okW = okW && isC && call.Call.Value == ssa.Value(wrc.Params[fnIdx]) && call.Call.Args[0] == resultOf(dial, 0)
 		}
 	}
 	c.ob(rule, "withRPCClient/returns-dial-error-or-closure-result", wrc.Pos(), okW, true, "")
@@ -433,7 +440,9 @@ func r203(c *Ctx) {
 					okRun = false
 				}
 			}
-			closure = closureFunc(call.Call.Args[1])
+			if fnIdx >= 0 && fnIdx < len(call.Call.Args) {
+				closure = closureFunc(call.Call.Args[fnIdx])
+			}
 		}
 		c.ob(rule, t+".run/returns-withRPCClient-result", run.Pos(), okRun, true, "")
 		if closure == nil {
